@@ -23,8 +23,9 @@ Grid_Generator rgg(int n, bool must_point) {
   return grid_line(e);
 }
 Grid_Generator_System rggs(int n, int m) { Grid_Generator_System gs; gs.insert(rgg(n, true)); for (int i = 1; i < m; ++i) gs.insert(rgg(n, false)); return gs; }
-Grid rgrid(int n) {
+Grid rgrid(int n, bool may_be_empty = true) {
   int st = rnd(0, 9);
+  if (!may_be_empty) { Grid g(n, EMPTY); g.add_grid_generators(rggs(n, rnd(1, 3))); if (coin()) (void) g.minimized_congruences(); return g; }
   if (st == 0) { Grid g(n, EMPTY); return g; }
   if (st < 4) { Grid g(n, EMPTY); g.add_grid_generators(rggs(n, rnd(1, 4))); if (st == 1) (void) g.minimized_congruences(); return g; }
   Grid g(n);
@@ -104,6 +105,7 @@ template <int OP> void s_affine(Ctx& c) {
   Coefficient d = rcoef(3); if (d == 0) d = -2;
   Coefficient mod = coin(30) ? Coefficient(0) : Coefficient(rnd(1, 4));
   Relation_Symbol rel = pplx::REL5[rnd(0, 4)];
+  if (rel != EQUAL) mod = 0;     // documented precondition of the generalized images on grids
   c.run([&] {
     switch (OP) {
     case IMG: g.affine_image(v, e, d); break;
@@ -165,7 +167,7 @@ template <int OP> void s_dims(Ctx& c) {
   Variables_Set fold_vs; for (int i = 0; i < n; ++i) if (i != (int) v.id() && coin()) fold_vs.insert(Variable(i));
   PFunc pf; pf.m.assign(n, -1);
   { std::vector<int> keep; for (int i = 0; i < n; ++i) if (coin(70)) keep.push_back(i); std::vector<int> img; for (size_t i = 0; i < keep.size(); ++i) img.push_back((int) i); std::shuffle(img.begin(), img.end(), hx::rng()); for (size_t i = 0; i < keep.size(); ++i) pf.m[keep[i]] = img[i]; }
-  Constraint_System wcs; if (coin()) wcs.insert(Variable(0) >= 0);
+  Constraint_System wcs; if (coin() && !vs.empty()) wcs.insert(Variable(*vs.begin()) >= 0);
   c.run([&] {
     switch (OP) {
     case EMBED: g.add_space_dimensions_and_embed(m); break;
@@ -248,7 +250,7 @@ static RegS q1("Grid.maximize_minimize", s_query<MAXMIN>), q2("Grid.relation_wit
 
 // ---------------------------------------------------------------- rejected calls (Grid_defs.hh)
 #define REJG(op, cls, expected, stmt) REJECT("Grid", op, cls) { Variable x(0), y(1), z(2); (void) x; (void) y; (void) z; \
-    Grid g = rgrid(2), h = rgrid(3); Grid g0(g), h0(h); r.call(expected, [&] { stmt; }); r.unchanged("receiver", g, g0); r.unchanged("argument", h, h0); }
+    Grid g = rgrid(2, false), h = rgrid(3, false); Grid g0(g), h0(h); r.call(expected, [&] { stmt; }); r.unchanged("receiver", g, g0); r.unchanged("argument", h, h0); }
 REJG("add_congruence", "dim_too_large", "invalid_argument", g.add_congruence((z %= 1) / 2))
 REJG("add_congruences", "dim_too_large", "invalid_argument", Congruence_System cgs; cgs.insert((x %= 1) / 2); cgs.insert((z %= 0) / 3); g.add_congruences(cgs))
 REJG("add_recycled_congruences", "dim_too_large", "invalid_argument", Congruence_System cgs; cgs.insert((z %= 0) / 3); g.add_recycled_congruences(cgs))
@@ -319,6 +321,8 @@ REJG("frequency", "dim_too_large", "invalid_argument", Coefficient a; Coefficien
 REJG("constrains", "dim_too_large", "invalid_argument", (void) g.constrains(z))
 REJG("wrap_assign", "dim_too_large", "invalid_argument", Variables_Set vs; vs.insert(z); g.wrap_assign(vs, BITS_8, UNSIGNED, OVERFLOW_WRAPS))
 
+REJECT("Grid", "add_constraint", "inequality_on_empty_receiver") { Grid g(2, EMPTY); Grid g0(g); r.call("invalid_argument", [&] { g.add_constraint(Variable(0) >= 1); }); r.unchanged("receiver", g, g0); }
+REJECT("Grid", "add_constraints", "inequality_on_empty_receiver") { Grid g(2, EMPTY); Grid g0(g); Constraint_System cs; cs.insert(Variable(1) <= 3); r.call("invalid_argument", [&] { g.add_constraints(cs); }); r.unchanged("receiver", g, g0); }
 #define REJ_GEMPTY(cls, stmt) REJECT("Grid", "add_grid_generator", cls) { Variable x(0), y(1); Grid g(2, EMPTY); if (coin()) { Grid t(2); t.add_congruence((x %= 0) / 2); t.add_congruence((x %= 1) / 2); g = t; if (coin()) (void) g.is_empty(); } Grid g0(g); \
     r.call("invalid_argument", [&] { stmt; }); r.unchanged("receiver", g, g0); }
 REJ_GEMPTY("parameter_into_empty", g.add_grid_generator(parameter(x)))
